@@ -1183,6 +1183,62 @@ theorem eff_tokenS {s s' : St} (h : Inv s) {v w tmp : Nat} (hv : v < s.n) (hw : 
     rw [rd_sub S.inv hd hr, subList_nonneg hb, habs, ← List.map_drop, ← List.map_take]
     rfl
 
+/-- the `start` that `token(char, start)` leaves behind -/
+theorem tokenC_start {s s' : St} (h : Inv s) {v w tmp : Nat} (hw : w < s.n) {sep st : Nat} {r : Nat}
+    {c : List Nat} (hc : allSome (absVar s w) = some c) (hz : 0 ∉ c)
+    (e : tokenC s v w sep st tmp = some (s', r)) :
+    r = if st ≥ c.length then c.length else Spec.tokenNext c st (strchrL (c.drop st) sep) := by
+  simp only [tokenC, Option.bind_eq_bind, Option.bind_eq_some_iff] at e
+  obtain ⟨⟨s1, f⟩, h1, d, hd, e⟩ := e
+  obtain ⟨S, hf⟩ := findCFrom_eq h hw hc hz h1
+  have hlen : d.len = c.length := by rw [desc_len S.inv hd, S.abs, allSome_eq hc, List.length_map]
+  cases f with
+  | none =>
+    simp only [Option.bind_eq_some_iff, Option.pure_def, Option.some.injEq, Prod.mk.injEq] at e
+    obtain ⟨src, _, s2, _, _, rfl⟩ := e
+    by_cases c1 : st ≥ c.length
+    · simp only [c1, if_true]; exact hlen
+    · simp only [c1, if_false] at hf ⊢
+      cases hs : strchrL (c.drop st) sep with
+      | none => exact hlen
+      | some k => rw [hs] at hf; cases hf
+  | some f =>
+    simp only [Option.bind_eq_some_iff, Option.pure_def, Option.some.injEq, Prod.mk.injEq] at e
+    obtain ⟨src, _, s2, _, _, rfl⟩ := e
+    by_cases c1 : st ≥ c.length
+    · simp only [c1, if_true] at hf; cases hf
+    · simp only [c1, if_false] at hf ⊢
+      cases hs : strchrL (c.drop st) sep with
+      | none => rw [hs] at hf; cases hf
+      | some k =>
+        rw [hs] at hf
+        simp only [Option.map_some, Option.some.injEq] at hf
+        subst hf
+        simp only [Spec.tokenNext]
+        omega
+
+/-- the `start` that `token(const char*, start)` leaves behind -/
+theorem tokenS_start {s s' : St} (h : Inv s) {v w tmp : Nat} (hw : w < s.n) {seps : List Nat} {st : Nat} {r : Nat}
+    {c : List Nat} (hc : allSome (absVar s w) = some c) (hz : 0 ∉ c) (hst : st ≤ c.length)
+    (e : tokenS s v w seps st tmp = some (s', r)) :
+    r = Spec.tokenNext c st (strpbrkL (c.drop st) seps) := by
+  simp only [tokenS, Option.bind_eq_bind, Option.bind_eq_some_iff] at e
+  obtain ⟨s1, h1, hh, h3, d, hd, e⟩ := e
+  obtain ⟨E, t⟩ := eff_cview h hw h1
+  have S := E.silent
+  have := cstrVar_from E.inv t (by rw [E.self]; exact hc) (nulFree_of hz) hst
+  rw [this] at h3; injection h3 with h3; subst h3
+  have hlen : d.len = c.length := by rw [desc_len S.inv hd, S.abs, allSome_eq hc, List.length_map]
+  cases hf : strpbrkL (c.drop st) seps with
+  | none =>
+    simp only [hf, Option.bind_eq_some_iff, Option.pure_def, Option.some.injEq, Prod.mk.injEq] at e
+    obtain ⟨src, _, s2, _, _, rfl⟩ := e
+    exact hlen
+  | some k =>
+    simp only [hf, Option.bind_eq_some_iff, Option.pure_def, Option.some.injEq, Prod.mk.injEq] at e
+    obtain ⟨src, _, s2, _, _, rfl⟩ := e
+    rfl
+
 /-! ### join -/
 
 theorem eff_joinLoop {v sep : Nat} : ∀ (toks : List (List Byte)) {s s' : St}, Inv s → v < s.n →
